@@ -308,10 +308,10 @@ func Replay(w *World, r *FnResult, o *Obligation, repo, tmp string) *ReplayResul
 	os.WriteFile(ov, ob, 0o644)
 	defer os.Remove(tf)
 	defer os.Remove(ov)
-	cmd := exec.Command("go", "test", "-overlay", ov, "-vet=off", "-count=1", "-v", "-timeout", "60s", "-run", "^TestGovcReplayGen$", ".")
+	cmd := exec.Command("go", "test", "-tags", "verif", "-overlay", ov, "-vet=off", "-count=1", "-v", "-timeout", "60s", "-run", "^TestGovcReplayGen$", ".")
 	cmd.Dir = dir
 	cmd.Env = append(os.Environ(), "GOFLAGS=-mod=mod", "GOPROXY=off")
-	res.Cmd = "cd " + dir + " && go test -overlay <ov> -vet=off -count=1 -timeout 60s -run ^TestGovcReplayGen$ ."
+	res.Cmd = "cd " + dir + " && go test -tags verif -overlay <ov> -vet=off -count=1 -timeout 60s -run ^TestGovcReplayGen$ ."
 	t0 := time.Now()
 	out, _ := cmd.CombinedOutput()
 	_ = t0
